@@ -1,6 +1,6 @@
 """Shared machinery of the C04 / C17 checks: case generators, the flat-stream specification the
 properties are stated against (python mirror of Proofs/TransportSpec), harness driver, Coq case terms."""
-import os, json, random
+import os, json, random, struct
 from vlib import *
 
 PS = 4096
@@ -521,6 +521,8 @@ def gen_bcase(rng, method=None):
         w = rng.choice([1, 2, 4, 8])
         addr = rng.choice([0, w, 2 * w, max(size - w, 0), size - w + 1 if size >= w else 0, size, rng.randrange(size + 2), 3])
         return {'seed': seed, 'size': size, 'method': m, 'addr': max(addr, 0), 'count': 0, 'buf': rdata(rng, w)}
+    if m == 'offset':
+        return {'seed': seed, 'size': size, 'method': m, 'addr': 0, 'count': rng.choice([0, 1, size // 2, max(size - 1, 0), size, size + 1, size + 100]), 'buf': b''}
     addr = rng.choice([0, 0, 1, size // 2, max(size - 1, 0), size, size + 1, rng.randrange(size + 2)])
     room = max(size - addr, 0)
     bl = rng.choice([0, 1, room, room, max(room - 1, 0), room + 1, rng.randrange(room + 2), 5])
@@ -533,6 +535,8 @@ def case_text_b(c):
 def bspec(c):
     """plain-view semantics on a byte vector -> (res, memory dict of changes).  res: ('ok', n, buf_after) / ('err', kind)"""
     size, addr, count, buf, m = c['size'], c['addr'], c['count'], c['buf'], c['method']
+    if m == 'offset':      # FileVolatileSlice::offset(count): the view [count, size): (new length, pointer advance as 8 LE bytes)
+        return (('ok', size - count, struct.pack('<Q', count)) if count <= size else ('err', 'oob')), {}
     base = BBASE + MARGIN
     mem = lambda a: pat(c['seed'], base + a)
     ch = {}
@@ -671,3 +675,11 @@ def eval_scase(c, out):
     else:
         if not dirty <= set(a // PS for a in W): probs.append({'what': 'whole request (%s, no reply): pages outside the writable descriptors marked' % c['kind'], 'sig': {'kind': 'overmarked'}})
     return probs, (c['kind'], L is not None, len(dirty), len([d for d in c['descs'] if d[2] == 'w']))
+
+# ------------------------------------------------------------------ thorough tier: independent re-check of the compiled proofs
+def coqchk(prop, ev, broken):
+    rc, out = run(['coqchk', '-silent', '-o', '-Q', '.', 'FB', 'FB.Props.%s' % prop], cwd=COQ, timeout=1800)
+    ok = rc == 0 and 'Axioms: <none>' in ' '.join(out.split())
+    ev.cov['coqchk'] = 'ok' if ok else 'failed'
+    if not ok: broken.append({'kind': 'proof', 'name': 'coqchk Props/%s.vo' % prop, 'log': out[-1500:]})
+    return ok
